@@ -301,10 +301,12 @@ package circuitbreaker
 //@ ghost var gDoneRt (Array Int Int)
 //@ ghost var gDoneErr (Array Int Iface)
 
+//@ ghost var gStateAfterTry (Array Int Int)
 //@ iface CircuitBreaker.TryPass(ctx) r
 //@   ensures gTryN == old(gTryN) + 1 && gTryRecv == upd(old(gTryRecv), old(gTryN), dynptr(this)) && gTryRes == upd(old(gTryRes), old(gTryN), r)
 //@   ensures gLastTry == upd(old(gLastTry), dynptr(this), r)
-//@   modifies gLastTry, gTryN, gTryRecv, gTryRes, all(circuitBreakerBase.nextRetryTimestampMs), all(circuitBreakerBase.curProbeNumber), cells(State), gToHalf, gToHalfPrev
+//@   ensures gStateAfterTry == upd(old(gStateAfterTry), dynptr(this), this.CurrentState())
+//@   modifies gStateAfterTry, gLastTry, gTryN, gTryRecv, gTryRes, all(circuitBreakerBase.nextRetryTimestampMs), all(circuitBreakerBase.curProbeNumber), cells(State), gToHalf, gToHalfPrev
 //@ iface CircuitBreaker.BoundRule() r
 //@   pure
 //@ iface CircuitBreaker.CurrentState() r
@@ -320,7 +322,7 @@ package circuitbreaker
 //@   let n0 = gTryN
 //@   ensures[in-order] forall j Int :: n0 <= j && j < gTryN ==> sel(gTryRecv, j) == dynptr(cbs[j - n0])
 //@   ensures[all-passed] passed ==> gTryN == n0 + len(cbs) && rule == nil && (forall j Int :: n0 <= j && j < gTryN ==> sel(gTryRes, j))
-//@   modifies gLastTry, gTryN, gTryRecv, gTryRes, all(circuitBreakerBase.nextRetryTimestampMs), all(circuitBreakerBase.curProbeNumber), cells(State), gToHalf, gToHalfPrev
+//@   modifies gStateAfterTry, gLastTry, gTryN, gTryRecv, gTryRes, all(circuitBreakerBase.nextRetryTimestampMs), all(circuitBreakerBase.curProbeNumber), cells(State), gToHalf, gToHalfPrev
 //@   ensures[first-reject] !passed ==> gTryN > n0 && gTryN <= n0 + len(cbs) && !sel(gTryRes, gTryN - 1) && (forall j Int :: n0 <= j && j < gTryN - 1 ==> sel(gTryRes, j)) && rule == cbs[gTryN - 1 - n0].BoundRule()
 //@   loop 1:
 //@     invariant[count] gTryN == n0 + #i
@@ -442,7 +444,7 @@ package circuitbreaker
 //@ spec func statReusable(a, b) = b != nil && a.Resource == b.Resource && a.Strategy == b.Strategy && a.StatIntervalMs == b.StatIntervalMs && a.StatSlidingWindowBucketCount == b.StatSlidingWindowBucketCount
 
 //@ func (r *Rule) isEqualsTo(newRule) res
-//@   props C14
+//@   props C14, C13
 //@   requires r != nil
 //@   ensures[def] res <==> eqRule(r, newRule)
 //@   ensures[identical-rules-are-equal] baseEq(r, newRule) && r.MaxAllowedRtMs == newRule.MaxAllowedRtMs && r.Threshold == newRule.Threshold && (newRule.Strategy == SlowRequestRatio || newRule.Strategy == ErrorRatio || newRule.Strategy == ErrorCount) ==> res
@@ -455,7 +457,7 @@ package circuitbreaker
 //@   modifies nothing
 
 //@ func calculateReuseIndexFor(r, oldResCbs) (equalIdx, reuseStatIdx)
-//@   props C14
+//@   props C14, C13
 //@   requires forall j Int :: 0 <= j && j < len(oldResCbs) ==> oldResCbs[j] != nil && oldResCbs[j].BoundRule() != nil
 //@   let n = len(oldResCbs)
 //@   ensures[ranges] 0 - 1 <= equalIdx && equalIdx < n && 0 - 1 <= reuseStatIdx && reuseStatIdx < n
